@@ -14,10 +14,14 @@ BASE_CONST = {"AVals": {"0", "7"}, "PVals": {"0"}, "RVals": {"0"}, "Tags": {1, 2
 
 
 def tlc_cases(rep: Report, wd, name: str, consts: Dict[str, Any], lvals: str, svals: str, out):
+    consts = {"Stride3": 1, **consts}
     cfg = cfg_text("Spec", constants=consts, invariants=["LeftId", "RightId", "Assoc", "ListsConcat", "SetsUnion",
-                                                          "NoValueDropped", "LaterWins"], postcondition="Export")
+                                                          "NoValueDropped", "LaterWins", "HarvestIsFold",
+                                                          "HarvestEmptySourcesNeutral", "HarvestLossless"],
+                   postcondition="Export")
     cfg = cfg.replace("CONSTANTS\n", f"CONSTANTS\n  LVals <- {lvals}\n  SVals <- {svals}\n")
-    r = run_tlc("MC_PartialMerge", cfg, wd, workers=common.NCPU, env={"OUT_FILE": str(out)}, tag="_" + name, timeout=3000)
+    r = run_tlc("MC_PartialMerge", cfg, wd, workers=common.NCPU,
+                env={"OUT_FILE": str(out), "OUT3_FILE": str(out) + ".triples"}, tag="_" + name, timeout=3000)
     rep.add_tlc(name, r, constants={k: sorted(v) if isinstance(v, set) else v for k, v in consts.items()},
                 lists=lvals, sets=svals, exhaustive=True)
     if r.violated:
@@ -270,6 +274,129 @@ def roundtrip(rep: Report, fam, universe, label):
     rep.evaluations += n
 
 
+def harvest_pipelines(rep: Report, fam, triples: List[Dict[str, Any]], rng: random.Random, wd, label: str):
+    """harvest() over three sources (+ sources that find nothing) = Harvest of the specification."""
+    import itertools
+    from pathlib import Path
+    from metador_core.harvester import (FileHarvester, Harvester, file_harvester_pipeline, harvest, metadata_loader)
+    M, P = fam["M"], fam["P"]
+
+    class Given(Harvester):       # a harvester that constructs its partial itself
+        made: Any = None
+
+        def run(self):
+            return type(self).made()
+
+    class FromFile(FileHarvester):   # a file harvester configured through file_harvester_pipeline
+        @property
+        def schema(self):
+            return P
+
+        def run(self):
+            return self.schema.parse_file(self.args.filepath)
+
+    d = Path(wd) / "harvest"
+    d.mkdir(exist_ok=True)
+    kinds_used: Dict[str, int] = {}
+    n = nconf = 0
+    for ci, c in enumerate(triples):
+      state0 = rng.getstate()
+      for complete in (False, True):     # harvester instances are configured for one run: build the sources twice
+        if complete and c["conflict"]:
+            break
+        rng.setstate(state0)
+        srcs, kinds = [], []
+        for pos, w in enumerate((c["x"], c["y"], c["z"])):
+            kind = rng.choice(["harvester", "harvester", "path_json", "path_yaml", "sidecar", "pipeline"])
+            way = rng.choice(WAYS)
+            if w["n"]["has"] and w["n"]["tag"] != 1:
+                kind = "harvester"    # a file cannot say that the nested object is of the subclass
+            o = build(fam, w, way) or build(fam, w, "construct")
+            if project(fam, o) != norm(w):
+                rep.violation(f"{label}: partial built by {way} does not hold what was provided", {"value": w, "way": way})
+            f = d / f"s{pos}.{'yaml' if kind in ('path_yaml', 'sidecar') else 'json'}"
+            if kind == "harvester":
+                H = type("Given_" + way, (Given,), {"made": staticmethod(lambda w_=w, way_=way: build(fam, w_, way_) or build(fam, w_, "construct"))})
+                srcs.append([H()])
+            elif kind in ("path_json", "path_yaml"):
+                f.write_text(o.json() if kind == "path_json" else o.yaml())
+                srcs.append([f])
+            elif kind == "sidecar":
+                data = d / f"data{pos}.bin"
+                data.write_bytes(b"x")
+                Path(str(data) + "_meta.yaml").write_text(o.yaml())
+                srcs.append([metadata_loader(M, use_sidecar=True)(filepath=data)])
+            else:
+                f.write_text(o.json())
+                srcs.append(list(file_harvester_pipeline(FromFile)(f)))
+            kinds.append(kind + "/" + way)
+            kinds_used[kind] = kinds_used.get(kind, 0) + 1
+        # sources that find nothing (a metadata file that does not exist) at random positions
+        for _ in range(rng.choice([0, 1, 2])):
+            srcs.insert(rng.randint(0, len(srcs)), [d / "does_not_exist.yaml"])
+        flat = list(itertools.chain.from_iterable(srcs))
+        if complete:
+            exp = norm(c["v"])
+            # the completed object holds exactly the merged values (defaults where nothing was provided)
+            try:
+                full = harvest(M, iter(flat))
+                back = project(fam, P.to_partial(full))
+                e2 = copy.deepcopy(exp)
+                for k_, dflt in (("l", []), ("s", [])):
+                    if not e2[k_]["has"]:
+                        e2[k_] = {"has": True, "v": dflt}
+                if type(full) is not M or back != e2:
+                    rep.violation(f"{label}: the completed harvest result differs from the merged partial: {back} vs {e2}",
+                                  {"x": c["x"], "y": c["y"], "z": c["z"], "sources": kinds})
+            except Exception as ex:
+                rep.violation(f"{label}: completing the harvest result raised {type(ex).__name__}: {str(ex)[:150]}",
+                              {"x": c["x"], "y": c["y"], "z": c["z"], "sources": kinds})
+            continue
+        n += 1
+        try:
+            got: Any = project(fam, harvest(M, iter(flat), return_partial=True))
+        except ValueError as ex:
+            got = "conflict" if "overwrite" in str(ex) else f"ValueError: {str(ex)[:150]}"
+        except Exception as ex:
+            got = f"{type(ex).__name__}: {str(ex)[:150]}"
+        exp: Any = "conflict" if c["conflict"] else norm(c["v"])
+        nconf += 1 if c["conflict"] else 0
+        if got != exp and not (c["conflict"] and c["lenient"] and isinstance(got, dict)):
+            rep.violation(f"{label}: harvest() over sources {kinds} differs from the specification: got {got}, expected {exp}",
+                          {"x": c["x"], "y": c["y"], "z": c["z"], "sources": kinds})
+            continue
+        rep.nontrivial.add((label, ci))
+    rep.evaluations += n
+    rep.parts[label] = {"pipelines": n, "expected_conflicts": nconf, "source_kinds": kinds_used}
+    if n and (nconf == 0 or nconf == n):
+        rep.machinery(f"{label}: vacuous ({nconf} conflicts of {n})")
+
+
+def degenerate_classes(rep: Report):
+    """The laws at the degenerate end: the partial of a factory's base model and of classes without fields."""
+    from metador_core.schema import MetadataSchema
+    from .c14models import PlainBase, PlainPartials, Z0, PZ0
+    n = 0
+    for what, model, P in (("MetadataSchema (base model of its factory)", MetadataSchema, MetadataSchema.Partial),
+                           ("plain base model of a PartialFactory", PlainBase, PlainPartials.get_partial(PlainBase)),
+                           ("field-less MetadataSchema subclass", Z0, Z0.Partial),
+                           ("field-less plain model", PZ0, PlainPartials.get_partial(PZ0))):
+        n += 1
+        try:
+            e = P()
+            m = e.merge_with(P())
+            m2 = P.merge(e, P(), P())
+            full = model()
+            back = P.to_partial(full).from_partial()
+            if m != e or m2 != e or back != full or type(back) is not model or type(m) is not P:
+                rep.violation(f"degenerate_classes: identity / round trip fails for the partial of {what}", {"class": what})
+        except Exception as ex:
+            rep.violation(f"degenerate_classes: merging / converting the partial of {what} raised {type(ex).__name__}: "
+                          f"{str(ex)[:150]}", {"class": what})
+    rep.parts["degenerate_classes"] = {"classes": n}
+    rep.evaluations += n
+
+
 def run(tier: str) -> int:
     rep = Report("C14", tier)
     quick = tier == "quick"
@@ -289,7 +416,8 @@ def run(tier: str) -> int:
     try:
         with cf.ThreadPoolExecutor(max_workers=2) as ex:
             f1 = ex.submit(tlc_cases, rep, wd, "laws_all_triples",
-                           {**BASE_CONST, "AVals": {"0"}, "BVals": set(), "QVals": set(), "PairsOnly": False, "Stride": 1},
+                           {**BASE_CONST, "AVals": {"0"}, "BVals": set(), "QVals": set(), "PairsOnly": False, "Stride": 1,
+                            "Stride3": 397 if quick else 23},
                            "L_small", "S_one", wd / "cases_small.json")
             f2 = ex.submit(tlc_cases, rep, wd, "laws_all_pairs_rich",
                            {**BASE_CONST, "BVals": {"F"}, "QVals": {"F"}, "PairsOnly": True, "Stride": 41 if quick else 7},
@@ -297,7 +425,10 @@ def run(tier: str) -> int:
             small, rich = f1.result(), f2.result()
         if small is None or rich is None:
             return rep.finish()
+        triples = json.loads((wd / "cases_small.json.triples").read_text())
         fams = families()
+        degenerate_classes(rep)
+        harvest_pipelines(rep, fams[0], triples, rng, wd, "harvest_pipelines[MetadataSchema]")
         for fam in fams:
             tagname = fam["name"].split()[0]
             conformance(rep, fam, small, rng, f"pairs_small[{tagname}]", 2500 if quick else None)
